@@ -1,8 +1,10 @@
 (* REGENERATED from src/mxlpy/label_map.py and src/mxlpy/linear_label_map.py by harness/c05_label.py;
    do not edit.  An unrecognised shape yields an *Unknown constructor / None / false, which breaks
    C05_facts_pinned or C16_facts_pinned. *)
-From Label Require Import LModel Iso IsoSession Linear.
+From Label Require Import LModel Iso IsoSession Linear LinSession.
 Definition gen_label_facts : label_facts :=
   mkLabelFacts IsoDocumented (Some true) ShortLt0 ReplPositional true DirDocumented true InitIsoName ExpDuplicated.
 (* how LabelMapper.build_model's reaction loop consults the mapper's own label_maps dict (IsoSession.v); pinned by C05_build_maps_pinned *)
 Definition gen_build_maps : maps_mode := MapsRead.
+(* what LinearLabelMapper keeps between build_model calls (LinSession.v); pinned by C16_lin_cache_pinned *)
+Definition gen_lin_cache : cache_mode := CacheNone.
